@@ -110,8 +110,10 @@ def analyse_table_parser(repo: Repo, run: Run, interp) -> None:
         r2 = interp.run(mod, f2)
         calls = [c for c in r2.calls if c.func == T("func", (f"{TC}.from_trace_codes_text",))]
         rets = [r for r in r2.returns if r.kind == "return"]
-        ok = len(calls) >= 1 and len(rets) == 1 and (
-            rets[0].value.op == "comp" or (rets[0].value.op == "call" and rets[0].value.a[0] == calls[0].func))
+        reads_file = any(c.func.op == "attr" and c.func.a[1] == "read" for c in r2.calls)
+        ok = len(calls) >= 1 and len(rets) == 1 and reads_file and any(
+            c.result is not None and (rets[0].value == c.result) for c in calls) and all(
+            any(x.op == "call" and x.a[0].op == "attr" and x.a[0].a[1] == "read" for x in sym.walk(c.args[0])) for c in calls if c.args)
         # inlined: the return is the comprehension over <file>.read()
         run.ob("R1", TC, name, "reads the file through from_trace_codes_text", ok,
                f"{name} no longer returns from_trace_codes_text(<file contents>)", nontrivial=False, line=f2.lineno)
@@ -120,6 +122,7 @@ def analyse_table_parser(repo: Repo, run: Run, interp) -> None:
 def analyse_indirection(repo: Repo, run: Run, interp) -> None:
     default = T("func", (f"{TC}.default_trace_codes",))
     n_sites = 0
+    helpers = []
     for mod in repo.modules.values():
         units = [(None, f) for f in mod.functions.values()]
         for ci in mod.classes.values():
@@ -153,23 +156,65 @@ def analyse_indirection(repo: Repo, run: Run, interp) -> None:
                 if guard is None:
                     continue
                 # the chosen table = ite(guard is None, default(), guard); find where it flows
-                chosen = T("ite", (T("cmp", ("is", guard, const(None))), T("call", (default, (), ())), guard))
+                dres = c.result if c.result is not None else T("call", (default, (), ()))
+                forms = [T("ite", (T("cmp", ("is", guard, const(None))), dres, guard)),
+                         T("ite", (T("cmp", ("is not", guard, const(None))), guard, dres)),
+                         T("ite", (T("not", (T("cmp", ("is", guard, const(None))),)), guard, dres))]
                 MARK = T("chosen-table", ())
-                dcall = T("call", (default, (), ()))
+                marks = {f_: MARK for f_ in forms}
+                dcall = dres
                 leaked = []
+                whole = rec.return_term() in forms      # `if t is None: return default()` / `return t` helper form
                 for r_ in rec.returns:
-                    if sym.contains(sym.subst(r_.value, {chosen: MARK}), dcall):
+                    if whole and r_.kind == "return":
+                        continue
+                    if r_.value not in forms and sym.contains(sym.subst(r_.value, marks), dcall):
                         leaked.append(f"return value line {r_.lineno}")
                 for ef in rec.effects:
-                    if ef.value is not None and sym.contains(sym.subst(ef.value, {chosen: MARK}), dcall):
+                    if ef.value is not None and sym.contains(sym.subst(ef.value, marks), dcall):
                         leaked.append(f"{ef.kind} line {ef.lineno}")
-                consumers = [cc for cc in rec.calls if any(a == chosen for a in cc.args) or any(v == chosen for _, v in cc.kwargs)]
-                okflow = bool(consumers) and not leaked
+                consumers = [cc for cc in rec.calls if any(a in forms for a in cc.args) or any(v in forms for _, v in cc.kwargs)]
+                returns_chosen = any(r_.kind == "return" and r_.value in forms for r_ in rec.returns) or whole
+                okflow = (bool(consumers) or returns_chosen) and not leaked
                 run.ob("R2", mod.name, qn, "the chosen table is passed on unchanged", okflow,
                        "" if okflow else f"{qn}: the bundled table reaches a consumer other than through "
                                          f"`default if {sym.pretty(guard)} is None else {sym.pretty(guard)}` ({leaked[:2]})"
                                          if leaked else f"{qn}: the chosen table is not handed to any consumer",
                        facts={"consumers": sorted({sym.pretty(cc.func)[:60] for cc in consumers})}, line=c.lineno)
+                if okflow and not consumers and returns_chosen:
+                    helpers.append((mod, ci, fnode, guard.a[0]))
+    # a helper that only makes the choice: each of its callers hands it the caller's own table and passes the result on
+    for hmod, hci, hfn, gparam in helpers:
+        hparams = [a.arg for a in hfn.args.args if a.arg != "self"]
+        gpos = hparams.index(gparam) if gparam in hparams else None
+        for mod in repo.modules.values():
+            units = [(None, f) for f in mod.functions.values()]
+            for ci in mod.classes.values():
+                units.extend((ci, m) for m in ci.methods.values())
+            for ci, fnode in units:
+                if fnode is hfn or not any(isinstance(n, (ast.Name, ast.Attribute)) and getattr(n, "id", getattr(n, "attr", None)) == hfn.name
+                                           for n in ast.walk(fnode)):
+                    continue
+                rec = interp.run(mod, fnode, self_cls=ci)
+                qn = f"{ci.name}.{fnode.name}" if ci else fnode.name
+                params = {a.arg for a in fnode.args.args + fnode.args.kwonlyargs}
+                for c in rec.calls:
+                    tail = c.func.a[1] if c.func.op == "attr" else (c.func.a[0].split(".")[-1] if c.func.op == "func" else None)
+                    if tail != hfn.name or c.where.split(".")[-1] != fnode.name:
+                        continue
+                    n_sites += 1
+                    given = dict(c.kwargs).get(gparam)
+                    if given is None and gpos is not None and gpos < len(c.args):
+                        given = c.args[gpos]
+                    okg = given is not None and given.op == "param" and given.a[0] in params
+                    used = c.result is not None and (
+                        any(any(a == c.result for a in cc.args) or any(v == c.result for _, v in cc.kwargs) for cc in rec.calls)
+                        or rec.return_term() == c.result)
+                    run.ob("R2", mod.name, qn, f"{hfn.name}: the caller's own table is the one chosen from", okg and used,
+                           "" if okg and used else
+                           f"{qn} calls {hfn.name}({sym.pretty(given)[:40] if given is not None else ''}) "
+                           + ("with something other than its own table parameter" if not okg else
+                              "and does not hand the chosen table to any consumer"), line=c.lineno)
     run.floor("R2", "default_trace_codes() call sites outside trace_codes.py", n_sites, 2)
 
     # consumers: TracesParser stores its first argument, nobody else rebinds .trace_codes
